@@ -9,7 +9,9 @@ from .peval import Const, PEval
 
 
 def index_guard_table(test: ast.AST, cont: str, idx: str, negated: bool = False,
-                      n_max: int = 4) -> Tuple[List[str], List[str], bool]:
+                      n_max: int = 4,
+                      derived: Optional[Tuple[str, ast.AST]] = None
+                      ) -> Tuple[List[str], List[str], bool]:
     """Evaluate ``test`` (a guard for ``cont[idx]``) for len(cont) in
     0..n_max and idx in -n-2..n+2.  Returns (valid indexes rejected,
     invalid indexes accepted, fully decided?)."""
@@ -18,9 +20,21 @@ def index_guard_table(test: ast.AST, cont: str, idx: str, negated: bool = False,
     accepted: List[str] = []
     decided = True
     for n in range(0, n_max + 1):
-        for i in range(-n - 2, n + 3):
-            t = pe.truth(test, {"len({})".format(cont): Const(n),
-                                idx: Const(i)})
+        for i in range(-2 * n - 2, 2 * n + 3):
+            env = {"len({})".format(cont): Const(n)}
+            if derived is None:
+                env[idx] = Const(i)
+            else:
+                # ``idx`` is computed from the requested index ``derived[0]``
+                # by the expression ``derived[1]`` (e.g. a normalisation of
+                # negative positions): the *request* ranges over the domain
+                env[derived[0]] = Const(i)
+                v = pe.value(derived[1], env)
+                if not isinstance(v, Const):
+                    decided = False
+                    continue
+                env[idx] = v
+            t = pe.truth(test, env)
             if t is None:
                 decided = False
                 continue
